@@ -381,7 +381,7 @@ pub fn do_forge(w: &mut World, s: usize, g: usize, template: u64, q: usize) -> V
     let victim = others.get(q % others.len().max(1)).copied();
     let mut r = crate::prng::Prng::new(crate::prng::mix(&[w.seed, w.step_no as u64, 0xf0f]));
     // proposals by value
-    let (props, name, rule_expected): (Vec<Vec<u8>>, &str, bool) = match template % 12 {
+    let (props, name, rule_expected): (Vec<Vec<u8>>, &str, bool) = match template % 13 {
         0 => {
             // sanity: one valid Add - must pass every rule and fail only at the (random) confirmation tag
             let banned = w.cfg.knob("banned").map(|_| w.parties.len() - 1);
@@ -434,6 +434,12 @@ pub fn do_forge(w: &mut World, s: usize, g: usize, template: u64, q: usize) -> V
             let at = mls_rs::time::MlsTime::from(w.clock.saturating_sub(365 * 24 * 3600 + 1));
             let Some(kp) = w.gen_key_package_at(o, at)? else { return Ok(false) };
             (vec![enc_add(&kp)], "add-expired-key-package", true)
+        }
+        12 => {
+            // a ReInit next to a custom proposal of a type every member supports
+            let mut cp = vec![0xF0u8, 0x00];
+            put_vec(&mut cp, &[7, 7, 7]);
+            (vec![enc_reinit(b"forged-reinit", w.cfg.suite), cp], "reinit-mixed-with-custom-proposal", true)
         }
         11 => {
             // ExternalInit belongs in an external commit of a new member, never in a member's commit
